@@ -58,6 +58,13 @@ Lemma readonly_resolveH h : readonly (resolveH h).
 Proof. unfold resolveH; ro. Qed.
 Lemma readonly_resolveR rels : readonly (resolveR rels).
 Proof. unfold resolveR; ro; try apply readonly_resolveH. Qed.
+Lemma readonly_resolve_relidx fi rels : readonly (resolve_relidx fi rels).
+Proof.
+  unfold resolve_relidx. destruct (no_relidx rels); [apply readonly_ret|].
+  apply readonly_bind; [unfold getF; ro|]. intros f. destruct (f_unsafe f); [apply readonly_fail|].
+  apply readonly_mapM. intros r. destruct (Nat.ltb (fst r) 1000); [apply readonly_ret|].
+  apply readonly_bind; [apply readonly_of_opt|]. intros c. apply readonly_ret.
+Qed.
 Lemma readonly_to_relations m rels : readonly (to_relations m rels).
 Proof. unfold to_relations; ro. Qed.
 Lemma readonly_getF fi : readonly (getF fi).
